@@ -181,4 +181,15 @@ def quadOrientedOk (nx ny rows : Nat) (lab : Lab) (e : EdgeC) : Bool :=
   | some q => quadNormalsAlong e.axis (lab e.x e.y e.z) q
   | none => false
 
+/-! ### `Clip`: `p.Max(minPoint.AddScalar(margin)).Min(maxPoint.AddScalar(-margin))`, per coordinate -/
+
+section
+variable {α : Type} [LT α] [DecidableLT α] [Add α] [Neg α]
+/-- `math.Max` / `math.Min` on non-NaN values. -/
+def smax (a b : α) : α := if a < b then b else a
+def smin (a b : α) : α := if b < a then b else a
+/-- One coordinate of the clipped vertex: cell `[lo, hi]`, absolute margin `m = CubeMargin·Delta`. -/
+def clip1 (p lo hi m : α) : α := smin (smax p (lo + m)) (hi + -m)
+end
+
 end M3d.DC
